@@ -102,7 +102,11 @@ pub trait RecUni: 'static {
     fn batch_pack(b: &Self::BatchBuilt, proof: &Self::BatchProof, common: &Self::Common) -> Result<(Vec<u64>, Vec<u64>), String>;
     fn ext_degree() -> usize;
     fn batch_prove(s: &FriShape, p: &crate::gprog::Program, public_lanes: usize, alu_lanes: usize) -> Result<(Self::BatchProof, Self::Common, usize), String>;
-    fn batch_native(s: &FriShape, proof: &Self::BatchProof) -> Result<(), String>;
+    /// Native verdict on a (possibly faulted) batch proof; `common` is the verifier-side common
+    /// data of the honest proof (only universes whose proofs do not carry their own use it).
+    fn batch_native(s: &FriShape, proof: &Self::BatchProof, common: &Self::Common) -> Result<(), String>;
+    /// Does this universe have a uni-STARK arm?
+    const HAS_UNI: bool = true;
     fn common_for(proof: &Self::BatchProof, honest: &Self::Common) -> Self::Common;
     fn batch_build(s: &FriShape, proof: &Self::BatchProof, common: &Self::Common) -> Result<Self::BatchBuilt, CircuitVerdict>;
     fn batch_run(b: &Self::BatchBuilt, proof: &Self::BatchProof, common: &Self::Common) -> (CircuitVerdict, CircuitInfo) {
@@ -537,7 +541,7 @@ macro_rules! rec_universe {
                         Err(p) => Err(format!("panic: {p}")),
                     }
                 }
-                fn batch_native(s: &FriShape, proof: &BatchProof) -> Result<(), String> {
+                fn batch_native(s: &FriShape, proof: &BatchProof, _common: &CommonData<MyConfig>) -> Result<(), String> {
                     batch_native(s, proof)
                 }
                 fn ext_degree() -> usize {
@@ -611,14 +615,15 @@ rec_universe!(
     p3_koala_bear::default_koalabear_poseidon2_16
 );
 
-/// Universe of run `idx`: three in eight runs each for the two plain universes, one each for the
-/// hiding-PCS universes (plain and salted MMCS).
+/// Universe of run `idx`: three in ten runs each for the two plain universes, one each for the
+/// hiding-PCS universes (plain and salted MMCS), two for the custom-AIR batch universe.
 pub fn universe_of(idx: u64) -> &'static str {
-    match idx % 8 {
+    match idx % 10 {
         0 | 2 | 4 => "U-KB4",
         1 | 3 | 5 => "U-BB4",
         6 => "U-KB4-ZK",
-        _ => "U-KB4-ZKSALT",
+        7 => "U-KB4-ZKSALT",
+        _ => "U-KB4-CUSTOM",
     }
 }
 
@@ -637,6 +642,10 @@ macro_rules! with_rec_universe {
             }
             "U-KB4-ZKSALT" => {
                 type $U = $crate::rec::kb4zks::U;
+                $body
+            }
+            "U-KB4-CUSTOM" => {
+                type $U = $crate::reccustom::U;
                 $body
             }
             _ => {
